@@ -30,6 +30,7 @@ type channelInstance struct {
 	state           instanceState
 	createdAt       time.Time
 	revisedLifetime time.Duration
+	expired         bool // lifetime plus grace period elapsed; guarded by sc.instancesMu
 	secureChannelID uint32
 	securityTokenID uint32
 	sequenceNumber  uint32
